@@ -93,7 +93,7 @@ def run_unit(sc, u, tier):
         is_canary = fn.split("::")[-1].startswith("canary_")
         my_errs = [e for e in errors if fn.split("::")[-1] in meta.get("fn_lines_lookup", lambda e: [])(e)] if False else []
         rec = dict(base, name="verus:%s.%s" % (name, fn), id="verus:%s.%s" % (name, fn),
-                   function=meta.get("functions", {}).get(fn.split("::")[-1], meta.get("function", "")),
+                   function=meta.get("functions", {}).get(fn, meta.get("function", "")),
                    domain=meta.get("domain", "all inputs satisfying the precondition (unbounded)"),
                    seconds=round(info["time"] / 1e6, 3), checks=1, cmd=cmd_s,
                    assumptions=meta.get("assumptions", []), fidelity_report=meta.get("fidelity"))
